@@ -260,6 +260,19 @@ def cosim_one(args):
             out['cancels'] = [f.consumer_tag for f in broker.frames_in('Basic.Cancel', cid)]
             out['state'] = (ch.current_state, len(ch.consumer_tags), len(ch._inbound))
         elif sc['kind'] == 'conn-close':
+            if sc.get('pending'):
+                # a connection-level failure is already recorded (heartbeat checker, decode error ...) while the
+                # connection is still open and its socket writable
+                conn.exceptions.append(amqpstorm.AMQPConnectionError('recorded earlier'))
+                if sc['pending'] == 'op':
+                    try:
+                        ch.basic.publish(b'x', 'q')
+                        out['pending_op'] = 'no-error'
+                    except amqpstorm.AMQPConnectionError:
+                        out['pending_op'] = 'connection-error'
+                    except amqpstorm.AMQPError as why:
+                        out['pending_op'] = repr(why)[:60]
+
             def closer(times):
                 def fn():
                     for _ in range(times):
@@ -280,7 +293,7 @@ def cosim_one(args):
     out['thread_excs'] = [(t.name, repr(t.exc)) for t in ctx.sched.threads if t.exc is not None and t.kind == 'app']
     # ---- model trace for Connection.close -----------------------------------------------------------
     out['acts'] = None
-    if sc['kind'] == 'conn-close' and 'lock' in ref:
+    if sc['kind'] == 'conn-close' and 'lock' in ref and not sc.get('pending'):
         acts = []
         holder = None
         sent_by_holder = False
@@ -336,6 +349,8 @@ def check(rep):
                   'code': rng.choice([200, 320])}
         else:
             sc = {'kind': k, 'closers': [rng.choice([1, 1, 2]) for _ in range(rng.randint(1, 3))]}
+            if rng.random() < 0.3:
+                sc['pending'] = rng.choice(['close', 'op'])
         jobs.append((sc, rng.randrange(1 << 30)))
     conn_lines = []
     for (sc, seed), r in zip(jobs, par.pmap(cosim_one, jobs)):
@@ -378,7 +393,14 @@ def check(rep):
             if r['state'] != (0, 0, 0):
                 rep.violation('C11/not-closed-after-close', 'after close(): %r' % (r['state'],), replay)
         elif k == 'conn-close' and 'conn_closes' in r:
-            if r['conn_closes'] != 1:
+            if sc.get('pending'):
+                want = 1 if sc['pending'] == 'close' else 0
+                if r['conn_closes'] != want:
+                    rep.violation('C11/connection-close-count/error-pending', 'with a connection error already recorded, %s sent %d Connection.Close '
+                                  'frames (expected %d)' % ('close()' if want else 'an operation followed by close()', r['conn_closes'], want), replay)
+                if sc['pending'] == 'op' and r.get('pending_op') != 'connection-error':
+                    rep.violation('C11/op-with-recorded-error', 'publish with a recorded connection error: %r' % (r.get('pending_op'),), replay)
+            elif r['conn_closes'] != 1:
                 rep.violation('C11/connection-close-count', '%r close() calls sent %d Connection.Close frames' % (sc['closers'], r['conn_closes']), replay)
             if r['state'] != (0, 0, 0, 0):
                 rep.violation('C11/conn-not-closed', 'after close(): %r' % (r['state'],), replay)
